@@ -26,39 +26,34 @@ variable {α : Type}
 /-! ## `Monitor` -/
 
 /-- **Monitor reports exactly the episode that ended** — for every history of `step`/`reset` calls
-(early resets, resets in a row, steps after the end, rejected calls, both settings of
-`allow_early_resets`, any `info_keywords`), provided every `reset` supplies the configured
-`reset_keywords`: whenever call `k` returns an `episode` entry, that call is a `step` that ended an
-episode, the reported return is `round6` of the sum of exactly the rewards the wrapped environment handed
-out since it was last reset, and the reported length is their number. -/
-theorem monitor_episode_exact_partial [Add α] [Zero α] (cfg : MonCfg) (rnd : α → α) (ops : List (Op α))
-    (hkw : ∀ op ∈ ops, op.kwOk cfg = true) (k : ℕ) (ep : EpInfo α)
-    (hk : (Mon.run cfg rnd Mon.init ops).2[k]? = some (Out.stepOk (some ep))) :
+(early resets, resets in a row, steps after the end, calls rejected for any reason — "before done",
+"needs reset", a missing `reset_keywords` entry —, both settings of `allow_early_resets`, any
+`info_keywords` / `reset_keywords`), without any hypothesis: whenever call `k` returns an `episode`
+entry, that call is a `step` that ended an episode, the reported return is `round6` of the sum of exactly
+the rewards the wrapped environment handed out since it was last reset, and the reported length is their
+number. -/
+theorem monitor_episode_exact [Add α] [Zero α] (cfg : MonCfg) (rnd : α → α) (ops : List (Op α)) (k : ℕ)
+    (ep : EpInfo α) (hk : (Mon.run cfg rnd Mon.init ops).2[k]? = some (Out.stepOk (some ep))) :
     ∃ r te tr info, ops[k]? = some (Op.step r te tr info) ∧ (te || tr) = true ∧
       ep.r = rnd (pySum (openSeg (Mon.trace cfg rnd Mon.init (ops.take k)) ++ [r])) ∧
       ep.l = (openSeg (Mon.trace cfg rnd Mon.init (ops.take k))).length + 1 :=
-  episode_exact cfg rnd ops hkw k ep hk
+  episode_exact cfg rnd ops k ep hk
 
-/-- The same at full strength for a `Monitor` without `reset_keywords` (the default): no hypothesis on
-the history at all. -/
-theorem monitor_episode_exact [Add α] [Zero α] (cfg : MonCfg) (hcfg : cfg.resetKeys = []) (rnd : α → α)
-    (ops : List (Op α)) (k : ℕ) (ep : EpInfo α)
-    (hk : (Mon.run cfg rnd Mon.init ops).2[k]? = some (Out.stepOk (some ep))) :
-    ∃ r te tr info, ops[k]? = some (Op.step r te tr info) ∧ (te || tr) = true ∧
-      ep.r = rnd (pySum (openSeg (Mon.trace cfg rnd Mon.init (ops.take k)) ++ [r])) ∧
-      ep.l = (openSeg (Mon.trace cfg rnd Mon.init (ops.take k))).length + 1 :=
-  episode_exact cfg rnd ops (fun op _ => by cases op <;> simp [Op.kwOk, hcfg]) k ep hk
+/-- A `reset()` rejected for a missing keyword leaves the running episode intact (the history that
+exposed F-C18-a: `reset(k=1)`, `step` (reward 1), `reset()` → ValueError, `step` (reward 2, final)): the
+environment saw one episode of two steps with return 3, and that is what is reported. -/
+theorem monitor_rejected_reset_keeps_episode :
+    ((Mon.run cexCfg id Mon.init cexOps).2.filterMap Out.ep?).map (fun e => (e.r, e.l)) = [((3 : Int), 2)] ∧
+    (Mon.run cexCfg id Mon.init cexOps).2[2]? = some Out.errMissingKw ∧
+    Mon.trace cexCfg id Mon.init cexOps = [.reset, .step 1 false, .step 2 true] :=
+  new_order_right
 
-/-- **The unrestricted statement is false for the code as it is** (finding K-C18-a): `Monitor.reset`
-clears `self.rewards` and `needs_reset` *before* it checks the `reset_keywords`. History: `reset(k=1)`,
-`step` (reward 1), `reset()` — raises ValueError, the environment is not reset —, `step` (reward 2, final).
-The environment saw one episode of two steps with return 3; the monitor reports return 2, length 1. -/
-theorem monitor_episode_exact_counterexample :
-    ((Mon.run cexCfg id Mon.init cexOps).2.filterMap Out.ep?).map (fun e => (e.r, e.l)) = [((2 : Int), 1)] ∧
-    Mon.trace cexCfg id Mon.init cexOps = [.reset, .step 1 false, .step 2 true] ∧
-    (pySum (openSeg ([.reset, .step 1 false] : List (Call Int)) ++ [2]),
-      (openSeg ([.reset, .step 1 false] : List (Call Int))).length + 1) = ((3 : Int), 2) :=
-  ⟨cex_outs, cex_trace, by decide⟩
+/-- Remark on the OLD statement order of `Monitor.reset` (before /repo commit 43bb017, modelled by
+`Lemmas.Mon.stepOld`: `rewards`/`needs_reset` cleared before the keyword check): on the same history it
+reports return 2, length 1 — the order of the statements is what the theorem above depends on. -/
+theorem monitor_old_reset_order_wrong :
+    ((runOld cexCfg id Mon.init cexOps).2.filterMap Out.ep?).map (fun e => (e.r, e.l)) = [((2 : Int), 1)] :=
+  old_order_wrong
 
 /-- **An `episode` entry is present exactly at episode ends**: a `step` call is either rejected
 ("needs reset") or answered with an info whose `episode` key is present iff the wrapped environment
@@ -73,14 +68,13 @@ theorem monitor_episode_presence [Add α] [Zero α] (cfg : MonCfg) (rnd : α →
 /-- **The wrapped environment's protocol is respected**: the first call that reaches it is a `reset`;
 a step that ended an episode is always followed by a `reset` (the env is never stepped when finished —
 this is what makes `openSeg` "the episode that ended"); and with `allow_early_resets=False` a `reset`
-only ever follows an episode end. -/
-theorem monitor_protocol_partial [Add α] [Zero α] (cfg : MonCfg) (rnd : α → α) (ops : List (Op α))
-    (hkw : ∀ op ∈ ops, op.kwOk cfg = true) :
+only ever follows an episode end. For every history, no hypotheses. -/
+theorem monitor_protocol [Add α] [Zero α] (cfg : MonCfg) (rnd : α → α) (ops : List (Op α)) :
     (∀ c ∈ (Mon.trace cfg rnd Mon.init ops).head?, c = Call.reset) ∧
     (Mon.trace cfg rnd Mon.init ops).IsChain (fun a b => a.isDone = true → b = Call.reset) ∧
     (cfg.allowEarly = false →
       (Mon.trace cfg rnd Mon.init ops).IsChain (fun a b => b = Call.reset → a.isDone = true)) :=
-  protocol cfg rnd ops hkw
+  protocol cfg rnd ops
 
 /-- **Rows are written in order**: the rows handed to the `ResultsWriter`, `episode_lengths` and
 (rounded) `episode_returns` are exactly the `episode` entries returned, in the order they were returned
@@ -230,13 +224,10 @@ theorem round6_error (q : Rat) : |round6 q - q| ≤ 1 / 2000000 := round6_err q
 
 /-! ## Non-vacuity: the hypotheses above are met by concrete non-trivial data -/
 
-/-- a history with an early reset, a rejected step and two completed episodes satisfying `hkw` -/
-example : ∀ op ∈ ([.reset [("a", 5)], .step 1 false false [], .reset [("a", 6)], .step 2 false false [],
-    .step 3 true false [], .step 9 false false [], .reset [("a", 7)], .step 4 false true []] : List (Op Int)),
-    op.kwOk ⟨true, [], ["a"]⟩ = true := by decide
-
+/-- a history with an early reset, a reset rejected for a missing keyword, a rejected step and two completed
+episodes (hypothesis `hk` of `monitor_episode_exact` is met at calls 5 and 8) -/
 example : ((Mon.run ⟨true, [], ["a"]⟩ id Mon.init ([.reset [("a", 5)], .step 1 false false [], .reset [("a", 6)],
-    .step 2 false false [], .step 3 true false [], .step 9 false false [], .reset [("a", 7)],
+    .step 2 false false [], .reset [], .step 3 true false [], .step 9 false false [], .reset [("a", 7)],
     .step 4 false true []] : List (Op Int))).2.filterMap Out.ep?).map (fun e => (e.r, e.l)) = [(5, 2), (4, 1)] := by
   decide
 
